@@ -22,7 +22,7 @@ DEFS_B = [dict(groups=0, names=[None]), dict(groups=1, names=[None, 'n']), dict(
 DEFS = DEFS_A
 
 
-def body(chk):
+def obligations(chk, prop='C17'):
     prog = chk.prog
     t = prog.tables
     find = [b for (st, m), lst in prog.by_method.items() if st == 'Collection' and m == 'find' for tr, b in lst]
@@ -44,7 +44,7 @@ def body(chk):
 
     def ob(name):
         if name not in obs:
-            obs[name] = chk.add(Obligation('C17.%s' % name, bound))
+            obs[name] = chk.add(Obligation('%s.%s' % (prop, 'find.' + name if prop != 'C17' else name), bound))
             obs[name].verdict = 'holds'
         return obs[name]
     npaths = [0]
@@ -157,6 +157,7 @@ def body(chk):
                 return same_text
             return z3.BoolVal(False)
         M.obj_eq = obj_eq
+        M.key_order = lambda ex_, k: def_of(ex_, k)      # regex texts are ordered like the definition indices
 
         def run(ex_, layout=layout, M=M, same_text=same_text, DEFS=DEFS):
             ex_.add(z3.ULT(kwd, bv(3)))
@@ -264,7 +265,7 @@ def body(chk):
     bad = [o for o in obs.values() if o.verdict == 'violated']
     if bad:
         confirm(chk, bad)
-    w = chk.add(Obligation('C17.witness', 'exploration'))
+    w = chk.add(Obligation('%s.%switness' % (prop, 'find.' if prop != 'C17' else ''), 'exploration'))
     w.kind = 'witness'
     need = {'no-match=>not-found', 'several-matches=>ambiguity-error-listing-all-candidates-sorted', 'one-match=>that-definition-with-whole-match-and-all-groups-in-order'}
     w.verdict = 'witness-ok' if need <= set(obs) and npaths[0] >= 100 else 'witness-missing'
@@ -281,7 +282,7 @@ def confirm(chk, bad):
     from checks import replay
     d = os.path.join(common.EVID, 'replay')
     os.makedirs(d, exist_ok=True)
-    path = os.path.join(d, 'C17-find.script')
+    path = os.path.join(d, '%s-find.script' % chk.prop)
     res, out = replay.run_script('mode find\n', path, timeout=300)
     chk.replays += 1
     devs, n = [], 0
@@ -318,6 +319,10 @@ def confirm(chk, bad):
         else:
             o.verdict = 'inconclusive'
             o.detail += ' | native differential replay (%d cases) follows the reference - counterexample not reproduced' % n
+
+
+def body(chk):
+    obligations(chk, 'C17')
 
 
 if __name__ == '__main__':
